@@ -24,23 +24,18 @@ def descendInto : Val → Option Stk
   | .cnd _ _ _ _ ex => stkOf ex
   | _ => none
 
-/-- what is handed back for the last index: a Condition alias comes back as the native handle of
-the same instance; everything else as it is stored -/
-def lastValue : Val → Val
-  | .cnd _ c kw op ex => .cnd .native c kw op ex
-  | v => v
-
-/-- `stack.traverse(indices...)` -/
+/-- `stack.traverse(indices...)`. After repairs F34 / F35 the walk is gated on initialisation only (as `Index` is;
+a validity policy has no say) and the last index hands back the stored value itself, alias forms included.
+`K` is kept as a parameter: the theorems hold whatever the installed closures answer. -/
 def Stk.traverse (K : Closures) : Stk → List Int → Except Fault (Val × Bool)
   | _, [] => .ok (.nil, false)
   | s, i :: rest =>
-    if !s.valid K then .ok (.nil, false) else
     match s.index i with
     | .error f => .error f
     | .ok (v, _, found) =>
       if !found then .ok (.nil, false) else
       match rest with
-      | [] => .ok (lastValue v, true)
+      | [] => .ok (v, true)
       | _ :: _ =>
         match descendInto v with
         | some s' => Stk.traverse K s' rest
@@ -54,11 +49,10 @@ every intermediate value was descendable; an empty path fails -/
 def descent (K : Closures) : Stk → List Int → Val × Bool
   | _, [] => (.nil, false)
   | s, i :: rest =>
-    if !s.valid K then (.nil, false) else
     let r := ListSpec.index s.xs (s.flag Gen.flag_negidx) (s.flag Gen.flag_fwdidx) i
     if !r.2 then (.nil, false) else
     match rest with
-    | [] => (lastValue r.1, true)
+    | [] => (r.1, true)
     | _ :: _ =>
       match descendInto r.1 with
       | some s' => descent K s' rest
